@@ -12,7 +12,37 @@ EV = "berty.tech/go-orbit-db/events"
 PSC = "berty.tech/go-orbit-db/pubsub/pubsubcoreapi"
 OOO = "berty.tech/go-orbit-db/pubsub/oneonone"
 
+ACI = "berty.tech/go-orbit-db/accesscontroller/ipfs"
+ACS = "berty.tech/go-orbit-db/accesscontroller/simple"
+ACO = "berty.tech/go-orbit-db/accesscontroller/orbitdb"
+
 CHECKS = {
+    "C03": {
+        "groups": [{
+            "pkg": BS, "funcs": ["VerifC03Forged", "VerifC03LocalWrite"],
+            "covers": {"VerifC03Forged": ["as-head", "as-ancestor", "id-swap"], "VerifC03LocalWrite": ["allowed", "denied"]},
+        }, {"pkg": ACI, "funcs": ["VerifC03CanAppend"], "covers": {"VerifC03CanAppend": ["decided"]}},
+           {"pkg": ACS, "funcs": ["VerifC03CanAppend"], "covers": {"VerifC03CanAppend": ["decided"]}},
+           {"pkg": ACO, "funcs": ["VerifC03CanAppend"], "covers": {"VerifC03CanAppend": ["decided"]}}],
+        "assumptions": [
+            "Dolev-Yao attacker with perfect symbolic cryptography: verify(pub, m, s) <=> s = sign(pub, m); the attacker can sign only with its own key, copy any public field (ids, identity blocks, keys, signatures of honest entries) and re-address entries",
+            "forged author fields: identity block (own / own with the writer's id / copy of the writer's) x key (own / writer's) x signature (own over the content / copied from an honest writer entry / garbage) x clock id; delivered as an announced head or as the ancestor of a colluding writer's entry to a replica with an explicit write list, through the real Sync, replicator, Join, Entry.Verify, ToHashable and the REAL OrbitDBIdentityProvider.VerifyIdentity",
+            "local write by an identity outside / inside the list, under the wildcard, and with the default (creator-only) list",
+            "unit harnesses of the three controllers' CanAppend with a symbolic write list (<= 2 symbolic ids, optional wildcard at any position) and a symbolic author id",
+        ],
+        "outside": ["real secp256k1", "identity providers other than orbitdb", "routes load-from-cache and snapshot (they reach the same Join)"],
+    },
+    "C04": {
+        "groups": [{
+            "pkg": BS, "funcs": ["VerifC04Tampered"],
+            "covers": {"VerifC04Tampered": ["as-head", "as-ancestor"]},
+        }],
+        "assumptions": [
+            "a valid entry of an authorised writer, one field of its wire form replaced (payload by a symbolic byte, clock time by ANY other 64-bit value, clock id, next, refs, key, signature, log id, or only the claimed address), keeping the claimed address or re-addressed; delivered as an announced head or (re-addressed) as the ancestor of a valid head",
+            "content addressing = perfect hash of every wire field except the hash; ancestors are fetched by hash, hence their content is whatever hashes to it; perfect symbolic signatures over the hashable form computed by the real ToHashable/toBuffer",
+        ],
+        "outside": ["hash collisions", "CBOR canonicalisation", "mutations of the identity block only (the signature does not cover it: that is C03's known finding)"],
+    },
     "C10": {
         "groups": [{
             "pkg": BS, "funcs": ["VerifC10Mixed"],
